@@ -184,6 +184,25 @@ def contract(qual, with_role, noraise=()):
         b = s.snapshot.get((sr.sexpr(), "errored"))
         return a is b or (is_z3(a) and is_z3(b) and a.eq(b)) or a == b
 
+    def decision_under_lock(E, st, out):
+        """check-then-act: the cache lookup that decides whether to execute, the execution and the
+        saving of the result all happen while this job's lock is held (between __enter__ and __exit__)"""
+        ent = [i for i, e in evs(st, "__enter__", ok=True)]
+        ext = [i for i, e in evs(st, "__exit__")]
+        lo = ent[0] if ent else None
+        hi = ext[-1] if ext else len(st.trace)
+        guarded = [RUN, "self._populate_filesystem", "save", "record_error"]
+        for i, e in enumerate(st.trace):
+            if e.name in guarded and (lo is None or not (lo < i < hi)):
+                return False
+        # the decisive lookup: the last self.result() before the early return / the execution
+        res = [i for i, e in evs(st, "self.result")]
+        if res and (lo is None or not (lo < res[-1] < hi)):
+            # a lookup outside the lock is only harmless if nothing is decided from it
+            decided = bool(evs(st, RUN)) or (out.kind == "return" and not evs(st, "self._populate_filesystem"))
+            return not decided
+        return True
+
     def result_saved_after_execution(E, st, out):
         ran = evs(st, RUN)
         if not ran:
@@ -204,6 +223,7 @@ def contract(qual, with_role, noraise=()):
         return ok
 
     exits = [
+        ("cache-decision-and-execution-under-the-job-lock", role("cache-decision-and-execution-under-the-job-lock"), decision_under_lock),
         ("writes-only-under-cache-dir", role("writes-only-under-cache-dir"), writes_only_under_cache_dir),
         ("job-dir-holds-result-after-execution", role("job-dir-holds-result-after-execution"), result_saved_after_execution),
         ("cwd-restored", role("cwd-restored"), cwd_restored),
